@@ -54,8 +54,7 @@ LEVEL_NOTE = ("Trusted: kernel, extraction, drivers, harness; the model-to-code 
               "property (finding F2: a multi-balance assertion followed by another assertion of the day); the check reported it with "
               "a replay, /repo carries the repair 20a0d05 and the model follows the repaired printer (the pinned one survives in "
               "C09_multi_assertion_refuted).  Caveats of the proved statements: failing balance runs are only shown to fail on both "
-              "sides (the error may differ); for accrual annotations "
-              "input_lex asks that the period ends of the window lie in years 0000..9999 (stated on new_partition's result).  On "
+              "sides (the error may differ).  On "
               "every generated case the binary's print, check and balance outputs are compared byte for byte.")
 
 
